@@ -153,6 +153,9 @@ func checkC14(c *Case, st *Stats) string {
 	Journal(c.Check, c.Path, docText, flagString(c))
 	lib := evalLibrary(c, c.Document(), false)
 	st.Eval(1)
+	if lib.lateBinding != "" {
+		return lib.lateBinding
+	}
 	if lib.parseErr != nil {
 		return fmt.Sprintf("generated path was rejected by Parse: %v", lib.parseErr)
 	}
